@@ -136,6 +136,8 @@ class Interp:
                 v = self.ev(st["e"], env, depth)
                 if not st["semi"]:
                     last = v
+            elif st.k == "item_stmt" and isinstance(st.get("item"), Node) and st["item"].k in ("use", "const"):
+                continue        # `use std::cmp::Ordering;` inside a function body
             else:
                 raise NotPure("statement kind " + st.k)
         return last
@@ -401,10 +403,17 @@ class Interp:
                 return args[0] if recv is None else self.apply_closure(args[1], [recv[1]], depth)
             if m in ("is_some_and", "is_none_or") and len(args) == 1 and isinstance(args[0], tuple) and args[0][0] == "closure" and (recv is None or (isinstance(recv, tuple) and recv[0] == "some")):
                 return (m == "is_none_or") if recv is None else bool(self.apply_closure(args[0], [recv[1]], depth))
-            if m in ("is_lt", "is_gt", "is_le", "is_ge", "is_eq", "is_ne") and not args and isinstance(recv, int) and not isinstance(recv, bool):
-                return {"is_lt": recv < 0, "is_gt": recv > 0, "is_le": recv <= 0, "is_ge": recv >= 0, "is_eq": recv == 0, "is_ne": recv != 0}[m]
-            if m == "cmp" and len(args) == 1 and isinstance(recv, int) and isinstance(args[0], int):
-                return (recv > args[0]) - (recv < args[0])
+            if m in ("is_lt", "is_gt", "is_le", "is_ge", "is_eq", "is_ne") and not args and isinstance(recv, tuple) and len(recv) == 3 and recv[0] == "variant" and recv[1] in ("Less", "Equal", "Greater"):
+                r_ = {"Less": -1, "Equal": 0, "Greater": 1}[recv[1]]
+                return {"is_lt": r_ < 0, "is_gt": r_ > 0, "is_le": r_ <= 0, "is_ge": r_ >= 0, "is_eq": r_ == 0, "is_ne": r_ != 0}[m]
+            if m in ("cmp", "partial_cmp") and len(args) == 1 and type(recv) == type(args[0]) and isinstance(recv, (int, tuple, str)) and not isinstance(recv, bool):
+                r_ = (recv > args[0]) - (recv < args[0])
+                v_ = ("variant", {-1: "Less", 0: "Equal", 1: "Greater"}[r_], [])
+                return v_ if m == "cmp" else ("some", v_)
+            if m in ("then", "then_with") and len(args) == 1 and isinstance(recv, tuple) and len(recv) == 3 and recv[0] == "variant" and recv[1] in ("Less", "Equal", "Greater"):
+                if recv[1] != "Equal":
+                    return recv
+                return args[0] if m == "then" else self.apply_closure(args[0], [], depth)
             if m == "unwrap_or" and len(args) == 1 and (recv is None or (isinstance(recv, tuple) and recv[0] == "some")):
                 return args[0] if recv is None else recv[1]
             if m == "unwrap" and not args and isinstance(recv, tuple) and recv[0] == "some":
